@@ -68,6 +68,9 @@ func main() {
 	addDir := func(src, dstPkg string) {
 		files, _ := filepath.Glob(filepath.Join(src, "*.go"))
 		for _, f := range files {
+			if strings.HasSuffix(f, "_test.go") {
+				continue
+			}
 			replace[filepath.Join(*repo, dstPkg, filepath.Base(f))] = f
 			rep.Added = append(rep.Added, filepath.Join(dstPkg, filepath.Base(f)))
 		}
@@ -149,6 +152,7 @@ func main() {
 		if accessPkgs[pkg] {
 			collectFields(pkg, files)
 		}
+		collectChanFields(pkg, files)
 		for _, f := range files {
 			if strings.HasSuffix(f, "_test.go") {
 				continue
@@ -248,6 +252,9 @@ func rewrite(pkg, path string, src []byte) ([]byte, bool) {
 	if accessPkgs[pkg] {
 		src, nAcc = instrumentFieldAccesses(pkg, path, src)
 	}
+	// channel operations -> scheduler-aware helpers (source text, innermost first)
+	nChan := 0
+	src, nChan = rewriteChannelOps(pkg, path, src)
 	fset := token.NewFileSet()
 	file, err := parser.ParseFile(fset, path, src, parser.ParseComments)
 	if err != nil {
@@ -297,14 +304,18 @@ func rewrite(pkg, path string, src []byte) ([]byte, bool) {
 		})
 	}
 
-	// channel operations are not hooked: refuse rather than explore blindly
+	// channel operations that the text pass above could not turn into helper calls (select,
+	// a receive from the result of a call such as time.After): refuse rather than explore blindly
 	ast.Inspect(file, func(n ast.Node) bool {
 		switch v := n.(type) {
-		case *ast.SendStmt, *ast.SelectStmt:
-			unhookable("%s uses channel operations, for which there is no shim", pos(n.Pos()))
+		case *ast.SelectStmt:
+			unhookable("%s uses select, for which there is no shim", pos(n.Pos()))
+			return false
+		case *ast.SendStmt:
+			unhookable("%s uses a channel operation that could not be hooked", pos(n.Pos()))
 		case *ast.UnaryExpr:
 			if v.Op == token.ARROW {
-				unhookable("%s uses channel operations, for which there is no shim", pos(n.Pos()))
+				unhookable("%s uses a channel operation that could not be hooked", pos(n.Pos()))
 			}
 		}
 		return true
@@ -457,6 +468,10 @@ func rewrite(pkg, path string, src []byte) ([]byte, bool) {
 	// (g) plain-memory accesses were routed through verifrt.R / verifrt.Wr in the source text (see above)
 	if nAcc > 0 {
 		rep.Rewritten = append(rep.Rewritten, fmt.Sprintf("%s: %d field accesses -> verifrt.R/Wr", rel, nAcc))
+		changed, needRT = true, true
+	}
+	if nChan > 0 {
+		rep.Rewritten = append(rep.Rewritten, fmt.Sprintf("%s: %d channel operations -> verifrt.Chan*", rel, nChan))
 		changed, needRT = true, true
 	}
 
@@ -793,4 +808,229 @@ func instrumentFieldAccesses(pkg, path string, src []byte) ([]byte, int) {
 		out = append(out[:e.from], append([]byte(e.text), out[e.to:]...)...)
 	}
 	return out, len(edits)
+}
+
+// ---------------------------------------------------------------- channel operations
+
+// isChanExpr: the expression certainly denotes a channel (a variable made with
+// make(chan ...), declared with a channel type, or a struct field of channel type).
+func isChanExpr(pkg string, e ast.Expr) bool {
+	switch v := stripParens(e).(type) {
+	case *ast.Ident:
+		if v.Obj == nil || v.Obj.Kind != ast.Var {
+			return false
+		}
+		switch d := v.Obj.Decl.(type) {
+		case *ast.Field:
+			_, ok := d.Type.(*ast.ChanType)
+			return ok
+		case *ast.ValueSpec:
+			if _, ok := d.Type.(*ast.ChanType); ok {
+				return true
+			}
+			for i, n := range d.Names {
+				if n.Obj == v.Obj && i < len(d.Values) {
+					return isMakeChan(d.Values[i])
+				}
+			}
+		case *ast.AssignStmt:
+			if len(d.Lhs) != len(d.Rhs) {
+				return false
+			}
+			for i, l := range d.Lhs {
+				if li, ok := l.(*ast.Ident); ok && li.Obj == v.Obj {
+					return isMakeChan(d.Rhs[i])
+				}
+			}
+		}
+	case *ast.SelectorExpr:
+		return pkgChanFields[pkg][v.Sel.Name]
+	}
+	return false
+}
+
+func isMakeChan(e ast.Expr) bool {
+	if c, ok := stripParens(e).(*ast.CallExpr); ok {
+		// also verifrt.ChanMake(make(chan ...)) after an earlier pass
+		if s, ok := c.Fun.(*ast.SelectorExpr); ok && s.Sel.Name == "ChanMake" && len(c.Args) == 1 {
+			return isMakeChan(c.Args[0])
+		}
+		if id, ok := c.Fun.(*ast.Ident); ok && id.Name == "make" && len(c.Args) >= 1 {
+			_, isChan := c.Args[0].(*ast.ChanType)
+			return isChan
+		}
+	}
+	return false
+}
+
+var pkgChanFields = map[string]map[string]bool{}
+
+func collectChanFields(pkg string, files []string) {
+	fields := map[string]bool{}
+	for _, f := range files {
+		if strings.HasSuffix(f, "_test.go") {
+			continue
+		}
+		file, err := parser.ParseFile(token.NewFileSet(), f, nil, 0)
+		if err != nil {
+			die("parse %s: %v", f, err)
+		}
+		ast.Inspect(file, func(n ast.Node) bool {
+			if st, ok := n.(*ast.StructType); ok {
+				for _, fl := range st.Fields.List {
+					if _, isChan := fl.Type.(*ast.ChanType); isChan {
+						for _, nm := range fl.Names {
+							fields[nm.Name] = true
+						}
+					}
+				}
+			}
+			return true
+		})
+	}
+	pkgChanFields[pkg] = fields
+}
+
+// rewriteChannelOps replaces, in the source text and innermost first (one pass per
+// nesting level), sends, receives, close, make(chan) and range-over-channel by calls of the
+// verifrt.Chan* helpers. Operations inside a select statement and receives whose operand
+// is a call (time.After(...), ctx.Done()) are left alone: the caller refuses those.
+func rewriteChannelOps(pkg, path string, src []byte) ([]byte, int) {
+	total := 0
+	for pass := 0; pass < 8; pass++ {
+		fset := token.NewFileSet()
+		file, err := parser.ParseFile(fset, path, src, parser.ParseComments)
+		if err != nil {
+			die("parse %s (after channel pass %d): %v", path, pass, err)
+		}
+		off := func(p token.Pos) int { return fset.Position(p).Offset }
+		text := func(n ast.Node) string { return string(src[off(n.Pos()):off(n.End())]) }
+		containsOp := func(n ast.Node) bool {
+			found := false
+			ast.Inspect(n, func(m ast.Node) bool {
+				switch v := m.(type) {
+				case *ast.SendStmt:
+					found = true
+				case *ast.UnaryExpr:
+					if v.Op == token.ARROW {
+						found = true
+					}
+				}
+				return !found
+			})
+			return found
+		}
+		type edit struct {
+			from, to int
+			text     string
+		}
+		var edits []edit
+		inSelect := map[ast.Node]bool{}
+		ast.Inspect(file, func(n ast.Node) bool {
+			if sel, ok := n.(*ast.SelectStmt); ok {
+				ast.Inspect(sel, func(m ast.Node) bool { inSelect[m] = true; return true })
+			}
+			return true
+		})
+		recv2 := map[*ast.UnaryExpr]bool{}
+		ast.Inspect(file, func(n ast.Node) bool {
+			switch v := n.(type) {
+			case *ast.AssignStmt:
+				if len(v.Lhs) == 2 && len(v.Rhs) == 1 {
+					if u, ok := stripParens(v.Rhs[0]).(*ast.UnaryExpr); ok && u.Op == token.ARROW {
+						recv2[u] = true
+					}
+				}
+			case *ast.ValueSpec:
+				if len(v.Names) == 2 && len(v.Values) == 1 {
+					if u, ok := stripParens(v.Values[0]).(*ast.UnaryExpr); ok && u.Op == token.ARROW {
+						recv2[u] = true
+					}
+				}
+			}
+			return true
+		})
+		ast.Inspect(file, func(n ast.Node) bool {
+			if n == nil || inSelect[n] {
+				return true
+			}
+			switch v := n.(type) {
+			case *ast.SendStmt:
+				if containsOp(v.Chan) || containsOp(v.Value) {
+					return true // inner operations first
+				}
+				edits = append(edits, edit{off(v.Pos()), off(v.End()), "verifrt.ChanSend(" + text(v.Chan) + ")(" + text(v.Value) + ")"})
+				return false
+			case *ast.UnaryExpr:
+				if v.Op != token.ARROW {
+					return true
+				}
+				if containsOp(v.X) {
+					return true
+				}
+				if _, isCall := stripParens(v.X).(*ast.CallExpr); isCall {
+					return true // e.g. <-time.After(d): a channel fed by code outside the scheduler
+				}
+				fn := "ChanRecv"
+				if recv2[v] {
+					fn = "ChanRecv2"
+				}
+				edits = append(edits, edit{off(v.Pos()), off(v.End()), "verifrt." + fn + "(" + text(v.X) + ")"})
+				return false
+			case *ast.CallExpr:
+				if id, ok := v.Fun.(*ast.Ident); ok && id.Obj == nil && len(v.Args) >= 1 {
+					if id.Name == "close" && len(v.Args) == 1 && !containsOp(v.Args[0]) {
+						edits = append(edits, edit{off(v.Pos()), off(v.End()), "verifrt.ChanClose(" + text(v.Args[0]) + ")"})
+						return false
+					}
+					if id.Name == "make" {
+						if _, isChan := v.Args[0].(*ast.ChanType); isChan && !containsOp(v) {
+							edits = append(edits, edit{off(v.Pos()), off(v.End()), "verifrt.ChanMake(" + text(v) + ")"})
+							return false
+						}
+					}
+				}
+				if s, ok := v.Fun.(*ast.SelectorExpr); ok && s.Sel.Name == "ChanMake" {
+					return false // already wrapped
+				}
+			case *ast.RangeStmt:
+				if isChanExpr(pkg, v.X) && !containsOp(v.X) {
+					key := "_"
+					if v.Key != nil {
+						key = text(v.Key)
+					}
+					tok := ":="
+					if v.Tok == token.ASSIGN {
+						tok = "="
+					}
+					head := "for { "
+					if tok == "=" {
+						head += "var verifChanOk bool; " + key + ", verifChanOk = verifrt.ChanRecv2(" + text(v.X) + "); "
+					} else {
+						head += key + ", verifChanOk := verifrt.ChanRecv2(" + text(v.X) + "); "
+					}
+					head += "if !verifChanOk { break }; "
+					edits = append(edits, edit{off(v.Pos()), off(v.Body.Lbrace) + 1, head})
+					return true // the body may hold further operations (disjoint from the header)
+				}
+			}
+			return true
+		})
+		if len(edits) == 0 {
+			return src, total
+		}
+		sort.Slice(edits, func(i, j int) bool { return edits[i].from > edits[j].from })
+		out := append([]byte{}, src...)
+		last := len(out) + 1
+		for _, e := range edits {
+			if e.to > last {
+				continue // overlaps an edit further right: next pass
+			}
+			out = append(out[:e.from], append([]byte(e.text), out[e.to:]...)...)
+			last = e.from
+			total++
+		}
+		src = out
+	}
+	return src, total
 }
